@@ -177,6 +177,23 @@ def canon(s):
     return (gen, rest)
 
 
+def _next_in_thread(s):
+    import threading
+    box = {}
+
+    def run():
+        try:
+            box["a"] = next(s)
+        except BaseException as e:  # noqa: BLE001
+            box["e"] = e
+    t = threading.Thread(target=run)
+    t.start()
+    t.join()
+    if "e" in box:
+        raise box["e"]
+    return box["a"]
+
+
 class Replayed:
     """The result of replaying one history on a fresh object."""
 
@@ -203,12 +220,23 @@ class Replayed:
             except Exception as e:  # noqa: BLE001
                 self.outcomes.append(("raise", type(e).__name__, str(e)))
             return self.outcomes[-1]
-        if ev[0] == "next":
+        if ev[0] in ("next", "iternext", "tnext"):
             self.nexts += 1
             self.was_final.append(s.max_n is not None)
             try:
                 with common.quiet():
-                    a = next(s)
+                    if ev[0] == "next":
+                        a = next(s)
+                    elif ev[0] == "iternext":
+                        # what one round of `for a in s: ...; break` does:
+                        # obtain an iterator, advance it once, drop it
+                        it = iter(s)
+                        a = next(it)
+                        del it
+                    else:
+                        # the same request issued from another thread (a
+                        # driver loop handed to a thread pool), sequentially
+                        a = _next_in_thread(s)
             except StopIteration:
                 self.was_final.pop()
                 self.outcomes.append(("stop",))
@@ -459,6 +487,24 @@ def explore(cfg, H, check_continuations=True):
                                 hist + [ev])
                 continue
             # ---------------- next
+            # the same request through a dropped iterator (`for ... break`)
+            # and from another thread must do exactly what next(s) does
+            for alt in ("iternext", "tnext"):
+                n_trans += 1
+                R2 = Replayed(cfg, hist)
+                R3 = Replayed(cfg, hist)
+                o2 = [R2.apply((alt,)) for _ in range(4)]
+                o3 = [R3.apply(("next",)) for _ in range(4)]
+                if o2 != o3:
+                    how = ("obtaining an iterator, advancing it once and "
+                           "dropping it (a `for` loop left by `break`)"
+                           if alt == "iternext" else
+                           "calling next() from another thread")
+                    j = next(i for i in range(4) if o2[i] != o3[i])
+                    finding(["C09", "C15"], f"{alt}_differs_from_next",
+                            f"{how}: request {j + 1} issued that way gives "
+                            f"{o2[j][:2]}, plain next(schedule) calls give "
+                            f"{o3[j][:2]}", hist + [(alt,)] * (j + 1))
             if out[0] == "raise":
                 # only acceptable for an online schedule that has not started
                 finding(["C02", "C09", "C17"], "next_raises",
